@@ -236,10 +236,7 @@ def check_framing(run):
         # empty block: return before any emission
         empty = ("nz", "p:block.get_item_count()")
         evs, _ = emission.events_of(wb, facts, env)
-        gate_ok = all(any(("cmp" == c[0] and "get_item_count" in (c[2] + c[3])) or
-                          (c[0] in ("nz",) and "get_item_count" in str(c[1])) or
-                          (c[0] == "not" and "get_item_count" in repr(c[1]))
-                          for c in conjuncts(e.guard)) for e in evs) and bool(evs)
+        gate_ok = all(any(ir.is_item_count_test(c) for c in conjuncts(e.guard)) for e in evs) and bool(evs)
         run.ob("R02.4", "write_block:empty-block-writes-nothing", gate_ok, wb, wb["line"],
                "every emission in write_block(block) is behind the get_item_count()==0 early return" if gate_ok else
                "an emission in write_block(block) is reachable for an empty block (no get_item_count() test in its guard)")
